@@ -29,6 +29,7 @@ FIXED_TAGS = [
     "models.nothere.Thing", "nothere.Thing", "nothere.sub.Thing", "krrood.adapters.json_serializer.JSON_TYPE_NAME",
     "krrood.adapters.json_serializer.to_json", "krrood.adapters.json_serializer.leaf_types",
     "krrood.adapters.json_serializer.JSONSerializationError", "krrood.adapters.json_serializer.JSONSerializableTypeRegistry",
+    "krrood.adapters.json_serializer.SubclassJSONSerializer", "models.jsonmodel.NoFromJson", "models.jsonmodel.NoneFromJson",
     "krrood.adapters.nothere.X", "krrood..adapters.X", "dataclasses.dataclass", "dataclasses.MISSING", "enum.Enum",
     "abc.ABC", "decimal", "uuid", "uuid.uuid4", "uuid.NAMESPACE_DNS", "collections.abc", "collections.abc.Mapping",
     "sys.modules", "sys.path", "__main__.X", "__main__", "builtins.", ".builtins", "1.2", "1", "a.1", "a-b.c", "a/b.c",
@@ -76,6 +77,7 @@ def witnesses():
         "relative-module-name": {"tag": "..a.b", "missing": False, "extra": 0},
         "non-class-target": {"tag": "json.dumps", "missing": False, "extra": 0},
         "import-error-module": {"tag": "models.badpkg.Thing", "missing": False, "extra": 0},
+        "serialisable-class-without-from-json": {"tag": "krrood.adapters.json_serializer.SubclassJSONSerializer", "missing": False, "extra": 1},
     }
 
 
@@ -95,7 +97,10 @@ def independent_valid(tag):
     if not isinstance(obj, type):
         return False
     if issubclass(obj, SubclassJSONSerializer):
-        return True
+        # deserialisable only when the class says how it is created from json
+        fj = vars(obj).get("_from_json", None) if "_from_json" in vars(obj) else getattr(obj, "_from_json", None)
+        fj = getattr(fj, "__func__", fj)
+        return callable(fj) and fj is not SubclassJSONSerializer._from_json.__func__
     return JSONSerializableTypeRegistry().get_deserializer(obj) is not None
 
 
@@ -112,6 +117,8 @@ def mechanism(tag, exc):
         return "import-error-module"
     if isinstance(exc, TypeError):
         return "non-class-target"
+    if isinstance(exc, NotImplementedError):
+        return "serialisable-class-without-from-json"
     return None
 
 
